@@ -124,8 +124,51 @@ class Op(Term):
         return dict(self.kw)
 
     def __repr__(self):
-        parts = [repr(a) for a in self.args] + [f"{k}={v!r}" for k, v in self.kw]
-        return f"{self.op}({', '.join(parts)})"
+        out, budget = [], [REPR_BUDGET]
+        _fmt(self, out, budget)
+        return "".join(out)
+
+
+REPR_BUDGET = 400000  # characters: a term with shared sub-terms is a DAG and prints exponentially long otherwise
+
+
+def _fmt(x, out, budget):
+    """repr of a term with a character budget (same text as the plain recursive repr as long as the budget lasts)"""
+    if budget[0] <= 0:
+        if not out or out[-1] != "...":
+            out.append("...")
+        return
+    if isinstance(x, Op):
+        out.append(x.op + "(")
+        budget[0] -= len(x.op) + 2
+        first = True
+        for a in x.args:
+            if not first:
+                out.append(", ")
+            first = False
+            _fmt(a, out, budget)
+        for k, v in x.kw:
+            if not first:
+                out.append(", ")
+            first = False
+            out.append(f"{k}=")
+            _fmt(v, out, budget)
+        out.append(")")
+    elif isinstance(x, (tuple, list)) and not hasattr(x, "_fields"):
+        o, c = ("(", ")") if isinstance(x, tuple) else ("[", "]")
+        out.append(o)
+        for i, a in enumerate(x):
+            if i:
+                out.append(", ")
+            _fmt(a, out, budget)
+        if isinstance(x, tuple) and len(x) == 1:
+            out.append(",")
+        out.append(c)
+        budget[0] -= 2
+    else:
+        t = repr(x)
+        out.append(t)
+        budget[0] -= len(t) + 2
 
 
 def _freeze(x):
